@@ -3,6 +3,7 @@
 package main
 
 import (
+	"errors"
 	"encoding/json"
 	"fmt"
 	"reflect"
@@ -62,6 +63,14 @@ var cbPanic = func() bool { return false }
 
 type cbPanicT struct{ msg string }
 
+// cbFail, when it returns true, makes the callback return an error (injected fault: a user
+// marshaler that fails - the error exits of the codecs run while other clients are inside).
+var cbFail = func() bool { return false }
+
+const cbFailMsg = "injected callback failure"
+
+var errCbFail = errors.New(cbFailMsg)
+
 type CbJSON struct {
 	A int
 	S string
@@ -72,6 +81,9 @@ func (c CbJSON) MarshalJSON() ([]byte, error) {
 	if cbPanic() {
 		panic(cbPanicT{"injected panic in MarshalJSON"})
 	}
+	if cbFail() {
+		return nil, errCbFail
+	}
 	b := []byte(`{"a":` + strconv.Itoa(c.A) + `,"s":` + strconv.Quote(c.S) + `}`)
 	cbHook(2)
 	return b, nil
@@ -81,6 +93,9 @@ func (c *CbJSON) UnmarshalJSON(b []byte) error {
 	cbHook(3)
 	if cbPanic() {
 		panic(cbPanicT{"injected panic in UnmarshalJSON"})
+	}
+	if cbFail() {
+		return errCbFail
 	}
 	var t struct {
 		A int    `json:"a"`
@@ -105,6 +120,9 @@ func (c CbText) MarshalText() ([]byte, error) {
 	if cbPanic() {
 		panic(cbPanicT{"injected panic in MarshalText"})
 	}
+	if cbFail() {
+		return nil, errCbFail
+	}
 	return []byte(strconv.Itoa(c.K) + ":" + c.V), nil
 }
 
@@ -113,6 +131,9 @@ func (c *CbText) UnmarshalText(b []byte) error {
 	cbHook(6)
 	if cbPanic() {
 		panic(cbPanicT{"injected panic in UnmarshalText"})
+	}
+	if cbFail() {
+		return errCbFail
 	}
 	i := strings.IndexByte(s, ':')
 	if i < 0 {
